@@ -3,8 +3,9 @@
 for d in /tmp/seed/out3/*/; do P=$(basename $d); for k in 1 2 3; do
   [ -f $d/$k/patch.diff ] || continue
   f=/tmp/seed/final3/$P-$k.txt; r=/tmp/seed/final3/$P-$k.retest.txt
-  first=$(cat $f 2>/dev/null | tr '\n' ' ' | sed 's/KNOWN-FINDING[^V\[]*//g' | cut -c1-330)
-  if [ -s $r ]; then last=$(cat $r | tr '\n' ' ' | sed 's/KNOWN-FINDING[^V\[]*//g' | cut -c1-330); else last="$first"; fi
+  summ() { grep -oE "obligations [0-9]+/[0-9]+|VIOLATION property=[^ ]+ replay=[^ ]+( no-failing-input-found)?|evaluations=.*" "$1" 2>/dev/null | tr '\n' ' ' | cut -c1-330; }
+  first=$(summ $f)
+  if [ -s $r ]; then last=$(summ $r); else last="$first"; fi
   if echo "$last" | grep -q VIOLATION; then det=yes; else det=no; fi
   how="./check $P against the scratch worktree with the change: $last"
   if [ -s $r ] && ! echo "$first" | grep -q VIOLATION; then how="first run MISSED it ($first); after the strengthening recorded in DESIGN.md section 9: $last"; fi
